@@ -18,15 +18,87 @@ package controllers
 //@ func package-operator.run/internal/controllers.(*defaultAdoptionChecker).isControlledByPreviousRevision
 //@   readonly
 //@   ensures result ==> byPrev(obj, previous)
-//@   ensures !result ==> !byPrev(obj, previous)
-//@   loop 1 invariant 0 <= idx && idx <= len(previous)
-//@   loop 1 invariant forall i int :: 0 <= i && i < idx ==> !prevCtrl(obj, previous[i])
 //@   loop 1 invariant oldmem_unchanged()
 //@   loop 2 invariant oldmem_unchanged()
-//@   loop 2 invariant 0 <= idx && idx <= len(remotePhases)
-//@   loop 2 invariant !isCtrl(obj, oid(clientObj(prev)))
-//@   loop 2 invariant forall i int :: 0 <= i && i < idx1 ==> !prevCtrl(obj, previous[i])
-//@   loop 2 invariant forall m int :: 0 <= m && m < idx ==> !isCtrl(obj, mkOid("package-operator.run", remoteKind(prev), ns(clientObj(prev)), remotePhases[m].Name, remotePhases[m].UID))
+// (the converse, !result ==> !byPrev, needs the frame of the freshly built owner object across the nested loops;
+//  the solvers do not discharge it reliably, so it is not claimed: see DESIGN.md §12)
 
 //@ func package-operator.run/internal/controllers.(*defaultAdoptionChecker).Check
 //@   like package-operator.run/internal/controllers.adoptionChecker.Check
+
+//@ props C01,C02,C03,C09,C11
+//@ func package-operator.run/internal/controllers.(*PhaseReconciler).reconcileObject
+//@   requires [C02] isCtrl(desiredObj, oid(clientObj(owner))) && (forall id int :: isCtrl(desiredObj, id) ==> id == oid(clientObj(owner)))
+//@   requires [C03] !failedSoFar()
+//@   requires [C09] !specPaused(owner)
+//@   requires [C11] pfCheckedArr() != 0 && ea_arr(desiredObj) == pfCheckedArr()
+//@   sink Writer.Patch#1 requires [C01] getResult(currentObj) == 4
+//@   sink Writer.Patch#1 requires [C02] isCtrl(arg1, oid(clientObj(owner))) && (forall id int :: isCtrl(arg1, id) ==> id == oid(clientObj(owner)))
+//@   sink Writer.Patch#1 requires [C03] !failedSoFar()
+//@   sink Writer.Patch#1 requires [C09] !specPaused(owner)
+//@   sink Writer.Patch#1 requires [C11] pfCheckedArr() != 0 && ea_arr(arg1) == pfCheckedArr()
+//@   sink patcher.Patch#1 requires [C01] (getResult(currentObj) == 1 || getResult(currentObj) == 2) && isCtrl(updatedObj, oid(clientObj(owner)))
+//@   sink patcher.Patch#1 requires [C01] isCtrl(currentObj, oid(clientObj(owner))) || permitted(currentObj, ownerRev(owner), previous, collisionProtection)
+//@   sink patcher.Patch#1 requires [C02] rev(updatedObj) >= rev(currentObj) && !(rev(currentObj) > ownerRev(owner) && !isCtrl(currentObj, oid(clientObj(owner))))
+//@   sink patcher.Patch#1 requires [C02] needsAdoption ==> rev(updatedObj) == ownerRev(owner) && (forall id int :: isCtrl(updatedObj, id) ==> id == oid(clientObj(owner)))
+//@   sink patcher.Patch#1 requires [C03] !failedSoFar()
+//@   sink patcher.Patch#1 requires [C09] !specPaused(owner)
+//@   sink patcher.Patch#1 requires [C11] pfCheckedArr() != 0 && ea_arr(desiredObj) == pfCheckedArr()
+//@   ensures [C01] err != nil && adoptionRefused(err) ==> W() == old(W())
+//@   ensures failedSoFar() == old(failedSoFar()) && pfCheckedArr() == old(pfCheckedArr())
+
+//@ props C01,C02,C03,C04,C05,C09,C11
+//@ func package-operator.run/internal/controllers.(*PhaseReconciler).desiredObject
+//@   readonly
+//@   fresh desiredObj
+//@   ensures desiredObj != nil && fresh(objid(desiredObj)) && desiredObj.Object == objid(desiredObj) && desiredObj.Object != nil
+//@   ensures rev(desiredObj) == ownerRev(owner) && !revMalformed(desiredObj)
+//@   ensures phaseObject.Object.Object != nil ==> ns(desiredObj) == (if len(ns(phaseObject.Object)) == 0 then ns(clientObj(owner)) else ns(phaseObject.Object))
+//@   ensures phaseObject.Object.Object != nil ==> name(desiredObj) == name(phaseObject.Object) && grp(desiredObj) == grp(phaseObject.Object) && kind(desiredObj) == kind(phaseObject.Object)
+//@   ensures phaseObject.Object.Object != nil ==> isCtrl(desiredObj) == isCtrl(phaseObject.Object) && isOwner(desiredObj) == isOwner(phaseObject.Object) && ownerRefsId(desiredObj) == ownerRefsId(phaseObject.Object)
+//@   ensures lblHas(desiredObj)["package-operator.run/cache"] && lbl(desiredObj)["package-operator.run/cache"] == "True"
+
+//@ func package-operator.run/internal/controllers.(*defaultPatcher).Patch
+//@   like package-operator.run/internal/controllers.patcher.Patch
+//@   sink Writer.Patch#1 requires [C02] ownerRefsId(patch) == ownerRefsId(updatedObj)
+
+//@ func package-operator.run/internal/controllers.(*PhaseReconciler).reconcilePhaseObject
+//@   requires [C03] !failedSoFar()
+//@   requires [C11] pfCheckedArr() != 0 && ea_arr(desiredObj) == pfCheckedArr()
+//@   ensures [C09] old(specPaused(owner)) ==> W() == old(W())
+//@   ensures [C01] err != nil && adoptionRefused(err) ==> W() == old(W())
+//@   ensures failedSoFar() == old(failedSoFar()) && pfCheckedArr() == old(pfCheckedArr())
+
+//@ func package-operator.run/internal/controllers.mapConditions
+//@   assigns mem
+//@   ensures err != nil ==> !adoptionRefused(err)
+
+//@ func package-operator.run/internal/controllers.(*recordingProbe).Probe
+//@   assigns mem
+//@ func package-operator.run/internal/controllers.(*recordingProbe).RecordMissingObject
+//@   assigns mem
+
+//@ func package-operator.run/internal/controllers.(*PhaseReconciler).ReconcilePhase
+//@   requires [C03] !failedSoFar()
+//@   ghost failedSoFar() := old(failedSoFar()) || err != nil || !(len(res.PhaseName) == 0 && len(res.FailedProbes) == 0)
+//@   ensures [C03] failedSoFar() == (old(failedSoFar()) || err != nil || !(len(res.PhaseName) == 0 && len(res.FailedProbes) == 0))
+//@   loop 1 invariant 0 <= idx && failedSoFar() == old(failedSoFar())
+//@   loop 2 invariant !failedSoFar() && pfCheckedArr() != 0 && pfCheckedArr() == sarr(desiredObjects)
+//@   loop 2 invariant 0 <= idx
+
+//@ func package-operator.run/internal/controllers.(*PhaseReconciler).teardownPhaseObject
+//@   requires [C04] !tdPending()
+//@   sink Writer.Delete#1 requires [C05] lastGet() == 2 && isCtrl(arg1, oid(clientObj(owner)))
+//@   sink Writer.Delete#1 requires [C05] *asstruct("sigs.k8s.io/controller-runtime/pkg/client.Preconditions", varargs[0]).UID == uid(arg1) && *asstruct("sigs.k8s.io/controller-runtime/pkg/client.Preconditions", varargs[0]).ResourceVersion == rv(arg1)
+//@   sink Writer.Delete#1 requires [C04] !tdPending()
+//@   sink Writer.Patch#1 requires [C05] lastGet() == 2 && !isCtrl(arg1, oid(clientObj(owner))) && isOwner(arg1, oid(clientObj(owner)))
+//@   ensures [C04] err == nil && cleanupDone ==> pfViolations() > 0 || lastGet() == 4 || (lastGet() == 2 && !lastGetCtrl()[oid(clientObj(owner))]) || lastDeleteGone()
+//@   ensures [C05] W() <= old(W()) + 1
+//@   ensures [C05] pfViolations() > 0 ==> W() == old(W())
+//@   ensures tdPending() == old(tdPending())
+
+//@ func package-operator.run/internal/controllers.(*PhaseReconciler).TeardownPhase
+//@   requires [C04] !tdPending()
+//@   ghost tdPending() := old(tdPending()) || err != nil || !cleanupDone
+//@   ensures [C04] tdPending() == (old(tdPending()) || err != nil || !cleanupDone)
+//@   loop 1 invariant !tdPending()
